@@ -582,9 +582,18 @@ class Analysis:
                 path = f"{v.path}.spawn" if v.tag in ("seed", "own") else v.path
                 return ("spawn", "SeedSequence.spawn" if not v.gen or "SeedSequence" in v.path else "Generator.spawn",
                         v.but(sp=sp, child=None, path=path, gen=v.gen))
+            if m == "rvs":  # scipy.stats distributions: random_state=None means the global RandomState
+                kws = {k.arg: k.value for k in call.keywords if k.arg}
+                if "random_state" in kws:
+                    v = self.ev(S, kws["random_state"], as_seed=True) or V(
+                        "unknown", note="random_state of unknown provenance")
+                else:
+                    v = V("global", note="rvs without random_state draws from the global RandomState")
+                return ("library", f"<distribution {ast.unparse(func.value)[:30]}>.rvs", v)
             if m in GEN_METHODS:
                 v = self.ev(S, func.value)
-                if v is not None and v.gen:
+                if v is not None and (v.gen or (v.tag == "seed" and isinstance(func.value, ast.Name))):
+                    # a generator object, or a seed-like parameter (`rng`, `generator`) used as one
                     if v.engine:
                         return None  # draws on a library engine: the engine's construction site stands for them
                     return ("draw", f"Generator.{m}", v)
@@ -633,11 +642,10 @@ class Analysis:
                         for t, val in zip(n.targets[0].elts, n.value.elts):
                             self.assign(S, t, self._assigned(S, val), changed)
                     else:
-                        v = self._assigned(S, n.value)
                         for t in n.targets:
-                            self.assign(S, t, v, changed)
+                            self.assign(S, t, self._assigned(S, n.value, t), changed)
                 elif isinstance(n, ast.AnnAssign) and n.value is not None:
-                    self.assign(S, n.target, self._assigned(S, n.value), changed)
+                    self.assign(S, n.target, self._assigned(S, n.value, n.target), changed)
                 elif isinstance(n, ast.AugAssign):
                     self.assign(S, n.target, self.ev(S, n.value), changed)
                 elif isinstance(n, ast.NamedExpr):
@@ -671,9 +679,11 @@ class Analysis:
             if not changed[0]:
                 break
 
-    def _assigned(self, S, value):
-        """Value of an assignment's right-hand side; dict literals / subscripted stores keep seed literals."""
-        return self.ev(S, value)
+    def _assigned(self, S, value, target=None):
+        """Value of an assignment's right-hand side.  Overwriting a seed parameter with a literal
+        (`seed = None`, `seed = 0`) counts: the literal is evaluated as a seed."""
+        as_seed = isinstance(target, ast.Name) and target.id in S["roots"]
+        return self.ev(S, value, as_seed=as_seed)
 
     def _put_sub(self, S, d, k, v, changed):
         if v is None:
@@ -734,7 +744,7 @@ class Analysis:
             for p in a.posonlyargs + a.args + a.kwonlyargs:
                 if SEED_PARAM.search(p.arg) and p.arg not in ("self", "cls"):
                     env[p.arg] = V("seed", path=p.arg)
-        return {"mod": mod, "cls": cls, "fn": fn, "env": env}
+        return {"mod": mod, "cls": cls, "fn": fn, "env": env, "roots": set(env)}
 
     def run_scope(self, mod, name, cls, fn, body):
         S = self.scope_state(mod, cls, fn)
@@ -947,8 +957,6 @@ def seeded(site):
 
 def spawn_separated(sp):
     cons = sp["consumers"]
-    if len(cons) < 2:
-        return False
     for (_, ca, ia) in cons:
         if ia is None or (sp["n"] is not None and ia >= sp["n"]):
             return False
